@@ -456,6 +456,10 @@ func compareFlat(list []jFlat, root *ct.Node, includePrecompiles bool, active ma
 		if hexU(f.Action.Gas) != n.Gas {
 			return fmt.Sprintf("frame %s: gas %s, expected %d", n.ID(), f.Action.Gas, n.Gas)
 		}
+		// a result block is kept for successful frames and for reverts (revert output is useful), dropped for other failures
+		if wantResult := n.Err == "" || n.Reverted; wantResult != (f.Result != nil) {
+			return fmt.Sprintf("frame %s (error %q): result block present=%v, expected %v", n.ID(), n.Err, f.Result != nil, wantResult)
+		}
 		if f.Result != nil && hexU(f.Result.GasUsed) != n.GasUsed {
 			return fmt.Sprintf("frame %s: gasUsed %d, expected %d", n.ID(), hexU(f.Result.GasUsed), n.GasUsed)
 		}
